@@ -75,3 +75,39 @@ def self_compare(func):
         if isinstance(n, ast.Compare) and len(n.ops) == 1 and mod.code(n.left) == mod.code(n.comparators[0]) and not any(isinstance(x, ast.Call) for x in ast.walk(n)):
             out.append(n)
     return out
+
+
+def _copied_fields(func):
+    """{(target object, source object): [(statement, target field, source field)]} for statements
+    `t.a = s.b` and `t.a = deepcopy(s.b)` / `copy(s.b)` between two different named objects"""
+    groups = {}
+    for n in walk_own(func.node):
+        if not (isinstance(n, ast.Assign) and len(n.targets) == 1 and isinstance(n.targets[0], ast.Attribute) and isinstance(n.targets[0].value, ast.Name)):
+            continue
+        v = n.value
+        if isinstance(v, ast.Call) and isinstance(v.func, ast.Name) and v.func.id in ("deepcopy", "copy") and len(v.args) == 1:
+            v = v.args[0]
+        if isinstance(v, ast.Attribute) and isinstance(v.value, ast.Name) and v.value.id != n.targets[0].value.id:
+            groups.setdefault((n.targets[0].value.id, v.value.id), []).append((n, n.targets[0].attr, v.attr))
+    return groups
+
+
+def copy_field_mismatches(func, min_group=3):
+    """In a function that copies state field by field (`new.a = old.a; new.b = old.b; ...`, at
+    least `min_group` such statements between the same two objects), a statement
+    `new.a = old.b` with a != b stands where `old.a` was meant.  Private/public twins
+    (`self._x = other.x`) count as the same field.  Returns (statement, target field, source
+    field, group size)."""
+    out = []
+    for (t, s_), stmts in _copied_fields(func).items():
+        same = [x for x in stmts if x[1].lstrip("_") == x[2].lstrip("_")]
+        if len(same) >= min_group:
+            for n, a, b in stmts:
+                if a.lstrip("_") != b.lstrip("_"):
+                    out.append((n, a, b, len(stmts)))
+    return out
+
+
+def copied_field_names(func):
+    """all fields the function copies from another object under their own name"""
+    return {a.lstrip("_") for stmts in _copied_fields(func).values() for n, a, b in stmts if a.lstrip("_") == b.lstrip("_")}
